@@ -50,11 +50,12 @@ namespace plan
       int id = static_cast<int>(m.classes.size());
       c.name = "S" + std::to_string(id);
       c.is_sv = true;
-      if (op.arg(2) & 1)
+      c.is_agent = (op.arg(3) & 1) != 0; // `class A : Agent`: same plumbing (instances, tau, facts get the temporal rule), no mutual exclusion
+      if ((op.arg(2) & 1) && !c.is_agent)
       { // extends an earlier state-variable class (and through it StateVariable) instead of StateVariable directly
         std::vector<int> sup;
         for (size_t i = 0; i < m.classes.size(); ++i)
-          if (m.classes[i].is_sv)
+          if (m.classes[i].is_sv && !m.classes[i].is_agent)
             sup.push_back(static_cast<int>(i));
         if (!sup.empty())
           c.super = sup[modn(op.arg(2) >> 1, sup.size())];
@@ -65,7 +66,7 @@ namespace plan
         PredD p;
         p.name = "SP" + std::to_string(m.preds.size());
         p.cls = id;
-        p.kind = 1;
+        p.kind = c.is_agent && ((op.arg(3) >> (1 + i)) & 1) ? 2 : 1;
         if ((op.arg(1) >> i) & 1)
           p.rparams.push_back("a" + std::to_string(m.preds.size()) + "_0");
         c.preds.push_back(static_cast<int>(m.preds.size()));
@@ -296,7 +297,7 @@ namespace plan
         if (st.k == Stmt::FORMULA && st.item && st.item->pred >= 0 && !st.item->local.empty())
         {
           const PredD &pd = m.preds[st.item->pred];
-          if (pd.cls >= 0 && m.classes[pd.cls].is_sv)
+          if (pd.cls >= 0 && m.classes[pd.cls].is_sv && p_interval(pd))
             sv_items.push_back(st.item.get());
           else if (p_interval(pd))
             iv_items.push_back(st.item.get());
@@ -466,7 +467,7 @@ namespace plan
       for (size_t i = p.own_from; i < p.rparams.size(); ++i)
         s += (i > p.own_from ? ", " : "") + std::string("real ") + p.rparams[i];
       s += ")";
-      const bool in_sv = p.cls >= 0 && m.classes[p.cls].is_sv;
+      const bool in_sv = p.cls >= 0 && m.classes[p.cls].is_sv && !m.classes[p.cls].is_agent;
       if (p.super >= 0)
         s += " : " + m.preds[p.super].name + (p.second_base_kind == 1 ? ", Interval" : (p.second_base_kind == 2 ? ", Impulse" : ""));
       else if (!in_sv && p.kind == 1)
@@ -481,7 +482,7 @@ namespace plan
       auto &c = m.classes[ci];
       if (c.is_sv)
       {
-        d += "class " + c.name + " : " + (c.super >= 0 ? m.classes[c.super].name : std::string("StateVariable")) + " {\n";
+        d += "class " + c.name + " : " + (c.super >= 0 ? m.classes[c.super].name : std::string(c.is_agent ? "Agent" : "StateVariable")) + " {\n";
         for (int pi : c.preds)
           d += pred_text(m.preds[pi], "  ");
         d += "}\n";
